@@ -29,6 +29,21 @@ def run(rep, props, replay=None):
         "mean()": lambda d: d.mean().values, "covariance()": lambda d: d.covariance().values,
         "noise_variance(order=1)": lambda d: d.noise_variance(order=1), "noise_variance(order=3)": lambda d: d.noise_variance(order=3),
         "mean(LP)": lambda d: d.mean(method_smoothing="LP", bandwidth=6.0).values}, "sample estimators")
+    # every difference order, large shifts: the estimate must not move (the difference sequences sum to zero)
+    xo = np.linspace(0, 1, 16)
+    Xo = np.round((fd.smooth_curves(rng, 4, xo) + 0.2 * rng.normal(size=(4, 16))) * 256) / 256
+    for order in range(1, 11):
+        base = float(fd.dense(xo, Xo).noise_variance(order=order))
+        for shift in (100.0, -20.0, 3.5):
+            moved = float(fd.dense(xo, Xo + shift).noise_variance(order=order))
+            rep.case(("shift-all-orders", order, shift, Xo.tobytes()), kind="noise-variance/shift-invariance")
+            # proved (C09_diffseq_facts + the shift lemma): every sequence sums to at most 2e-4 in absolute value, hence
+            # |change| <= 2 |c| (2e-4) max|d . window| + (2e-4 c)^2
+            wins = [abs(float(np.dot(DIFF_SEQUENCES[order], Xo[k, j:j + order + 1]))) for k in range(4) for j in range(16 - order)]
+            bound = 2 * abs(shift) * 2e-4 * max(wins) + (2e-4 * shift) ** 2 + 1e-9 * (1.0 + abs(shift)) ** 2
+            if abs(moved - base) > bound:
+                rep.violation(f"noise_variance(order={order}) changes from {base!r} to {moved!r} when {shift} is added to the curves",
+                              {"x": C.hexf(xo), "X": C.hexf(Xo), "order": order, "shift": shift})
     for i in range(n_cases):
         kind = fd.GRID_KINDS[i % len(fd.GRID_KINDS)]
         n = int(rng.integers(2, 9 if quick else 40))
